@@ -159,7 +159,7 @@ func (w *work) build(p *PartSpec) (string, error) {
 	if err != nil {
 		return "", err
 	}
-	hdir := filepath.Join(w.dir, "b-"+p.Harness+fmt.Sprint(p.Instrument, p.FsPoints, len(p.Probes)))
+	hdir := filepath.Join(w.dir, fmt.Sprintf("b-%s-%v-%v-%d", p.Harness, p.Instrument, p.FsPoints, len(p.Probes)))
 	os.MkdirAll(hdir, 0755)
 	if p.Generate != nil {
 		gen, err := p.Generate(w, hdir, ov)
@@ -171,6 +171,9 @@ func (w *work) build(p *PartSpec) (string, error) {
 		}
 	}
 	mainPkg := "./cmd/verif_" + p.Harness
+	if p.MainPkg != "" {
+		mainPkg = p.MainPkg
+	}
 	modfile := ""
 	if len(p.ModRequires) > 0 {
 		var err error
@@ -181,7 +184,7 @@ func (w *work) build(p *PartSpec) (string, error) {
 	if p.Instrument {
 		cfg := instr.Config{
 			RepoDir: repoDir, OutDir: filepath.Join(hdir, "instr"), Overlay: ov, Env: w.goEnv,
-			Patterns: append([]string{mainPkg}, p.InstrPkgs...), Probes: p.Probes, FsPoints: p.FsPoints, Modfile: modfile, ImportMap: p.ImportMap,
+			Patterns: append([]string{mainPkg}, p.InstrPkgs...), Probes: p.Probes, FsPoints: p.FsPoints, Modfile: modfile, ImportMap: p.ImportMap, RenameMain: p.RenameMain, HTTPSeams: p.HTTPSeams,
 		}
 		nov, err := instr.Run(cfg)
 		if err != nil {
